@@ -130,8 +130,9 @@ CLAIMED = {
              "cut of a well-framed record stream into segments, from ANY initial sequence number modulo 2^32 -- streams across 2^32 included -- with ANY retransmitted "
              "exact duplicates, delivers exactly the records, in order), C05_session_dedupe (the session's duplicate memory is that machine), C05_handler_sees_trace and "
              "C05_directions_independent (the record handler sees exactly the extraction trace; each direction's part is what its own packets produce: interleaving is "
-             "irrelevant). Closed under the global context. (c) bounded reordering: no theorem yet -- decided by the exhaustive displacement sweep (<= 3 positions) of "
-             "the check on a real Session object; one residual open finding (first data segment of a direction displaced).",
+             "irrelevant), C05_reordering (the segments of a direction captured in ANY order -- any permutation, not only a bounded one -- that keeps the direction's first "
+             "data segment first deliver exactly the records, in order, nothing left buffered). Closed under the global context. The arrival orders that displace the "
+             "first data segment are the open finding first-segment-displaced (exhibited by the displacement sweep of the check on a real Session object).",
         note="Trusted: Coq kernel; hand-written reassembly model tied by correspondence (in-process records handed to handle_tls_record of a real Session; end-to-end output "
              "bytes under five segmentation schedules); streams < 2^31 bytes per direction; records well framed.",
         technique="Coq proof (invariant of the per-direction reassembly machine, serial-number arithmetic with lia) + exhaustive cut-set / duplicate / displacement sweeps",
